@@ -2,6 +2,7 @@
 C20 — Rewind restarts demuxing from a clean state.
 -/
 import Astits.Model.Demux
+import Astits.Proofs.DemuxRuns
 namespace Astits.C20
 
 /-- on a seekable reader Rewind reports offset 0 and leaves the demuxer exactly in its initial state, except for
@@ -37,5 +38,204 @@ theorem rewind_not_seekable (d : Demux) (h : d.r.kind ≠ .seek) : d.rewind.1 = 
   cases hk : d.r.kind <;> simp_all
 
 example : ({ r := { data := [1, 2, 3], pos := 2 }, dataBuffer := [{}], packetSize := some 188 } : Demux).rewind.2.r.pos = 0 := by decide
+
+/-! ## R1 — after Rewind the demuxer *behaves* as a freshly constructed one
+
+`Demux.runCalls d cs` (`Proofs/DemuxRuns.lean`) are the results of the call sequence `cs` (any mix of `NextPacket` and
+`NextData`), `Demux.after d cs` the state reached. The model keeps the program map across `Rewind` (as the
+implementation does), and `NextData` results *do* depend on it — see `rewind_differs_pmt_before_pat` below. The
+hypothesis that excludes this is `Compatible L d₀ cs` with `L` the map kept by the Rewind: in the run of the fresh
+demuxer, every packet handed to the pool whose PID `L` knows as a PMT PID arrives when the fresh demuxer knows that PID
+too ("the PAT precedes the PMTs"). `NextPacket` results never depend on the map. -/
+
+/-- a freshly constructed demuxer (any reader contents, packet size option, skipper, custom parser) -/
+structure Fresh (d : Demux) : Prop where
+  pos : d.r.pos = 0
+  packetSize : d.packetSize = none
+  pool : d.pool = []
+  dataBuffer : d.dataBuffer = []
+  programMap : d.programMap = []
+
+theorem reader_same_pos {r r' : Reader} (h : Reader.Same r r') : { r' with pos := r.pos } = r := by
+  obtain ⟨d, p, k, fa, fo, fd⟩ := r
+  obtain ⟨d', p', k', fa', fo', fd'⟩ := r'
+  obtain ⟨h1, h2, h3, h4, h5⟩ := h
+  simp only at h1 h2 h3 h4 h5
+  subst h1 h2 h3 h4 h5
+  rfl
+
+/-- the state after `cs₀`; Rewind is in lock step with the fresh state `d₀` (whose skipper — a stateful object the
+demuxer cannot reset — is at consultation index `k`): same reader at offset 0, same options, empty pool and data
+buffer, program map = what was learnt before the Rewind -/
+theorem rewind_lock_idx (d₀ : Demux) (hfresh : Fresh d₀) (hs : d₀.Seekable) (cs₀ : List ApiCall) (k : Nat)
+    (hk : (d₀.after cs₀).skipIdx = k ∨ ∀ ds, d₀.skipper ≠ .script ds) :
+    Lock (d₀.after cs₀).programMap (d₀.after cs₀).rewind.2 { d₀ with skipIdx := k } := by
+  have hst := after_static cs₀ d₀ hs
+  have hseek := hst.seekable hs
+  rw [rewind_eq_fresh _ hseek.2]
+  refine ⟨⟨?_, hst.opt, hst.skipper, hfresh.packetSize.symm, ?_⟩, ⟨hfresh.pool.symm, hfresh.dataBuffer.symm, hst.parser, ?_⟩, ?_⟩
+  · show ({ (d₀.after cs₀).r with pos := 0 } : Reader) = d₀.r
+    rw [← hfresh.pos]; exact reader_same_pos hst.r
+  · rcases hk with hk | hk
+    · exact Or.inl hk
+    · right
+      intro ds
+      show (d₀.after cs₀).skipper ≠ _
+      rw [hst.skipper]; exact hk ds
+  · intro x
+    show (d₀.after cs₀).programMap.has x = (d₀.programMap.has x || (d₀.after cs₀).programMap.has x)
+    rw [hfresh.programMap]; rfl
+  · show Pool.All _ d₀.pool
+    rw [hfresh.pool]; exact Pool.All.nil
+
+theorem rewind_lock (d₀ : Demux) (hfresh : Fresh d₀) (hs : d₀.Seekable) (hsk : ∀ ds, d₀.skipper ≠ .script ds)
+    (cs₀ : List ApiCall) : Lock (d₀.after cs₀).programMap (d₀.after cs₀).rewind.2 d₀ :=
+  rewind_lock_idx d₀ hfresh hs cs₀ d₀.skipIdx (Or.inr hsk)
+
+/-- **R1: after Rewind the demuxer behaves as a freshly constructed one.** `d₀` is a fresh demuxer on a seekable
+fault-free reader (any contents — whole packets or not —, explicit or auto-detected packet size, no skipper or a pure
+predicate, any custom parser). After ANY calls `cs₀`, `Rewind`, ANY further calls `cs` return exactly what they
+return on the fresh demuxer — provided the continuation is `Compatible` with the program map kept by the Rewind -/
+theorem rewind_behaves_fresh (d₀ : Demux) (hfresh : Fresh d₀) (hs : d₀.Seekable) (hsk : ∀ ds, d₀.skipper ≠ .script ds)
+    (cs₀ cs : List ApiCall) (hc : Compatible (d₀.after cs₀).programMap d₀ cs) :
+    (d₀.after cs₀).rewind.2.runCalls cs = d₀.runCalls cs :=
+  runCalls_lock _ cs _ _ (rewind_lock d₀ hfresh hs hsk cs₀) hc
+
+/-- the packet API never looks at the program map: unconditional -/
+theorem rewind_behaves_fresh_packets (d₀ : Demux) (hfresh : Fresh d₀) (hs : d₀.Seekable)
+    (hsk : ∀ ds, d₀.skipper ≠ .script ds) (cs₀ cs : List ApiCall) (hcs : ∀ c ∈ cs, c = ApiCall.nextPacket) :
+    (d₀.after cs₀).rewind.2.runCalls cs = d₀.runCalls cs :=
+  rewind_behaves_fresh d₀ hfresh hs hsk cs₀ cs (compatible_of_nextPacket_only _ cs hcs d₀)
+
+/-- nothing learnt before the Rewind (no PAT delivered yet): unconditional -/
+theorem rewind_behaves_fresh_nothing_learnt (d₀ : Demux) (hfresh : Fresh d₀) (hs : d₀.Seekable)
+    (hsk : ∀ ds, d₀.skipper ≠ .script ds) (cs₀ cs : List ApiCall) (hL : ∀ x, (d₀.after cs₀).programMap.has x = false) :
+    (d₀.after cs₀).rewind.2.runCalls cs = d₀.runCalls cs :=
+  rewind_behaves_fresh d₀ hfresh hs hsk cs₀ cs (compatible_of_empty _ hL cs d₀)
+
+/-- **program-map irrelevance**: PIDs learnt before the Rewind that no packet of the stream carries (as `NextPacket`
+delivers it: `Demux.Delivers`) do not matter -/
+theorem rewind_behaves_fresh_absent (d₀ : Demux) (hfresh : Fresh d₀) (hs : d₀.Seekable)
+    (hsk : ∀ ds, d₀.skipper ≠ .script ds) (cs₀ cs : List ApiCall)
+    (hL : ∀ x, d₀.Delivers x → (d₀.after cs₀).programMap.has x.header.pid = false) :
+    (d₀.after cs₀).rewind.2.runCalls cs = d₀.runCalls cs :=
+  rewind_behaves_fresh d₀ hfresh hs hsk cs₀ cs (compatible_of_absent _ cs d₀ hL)
+
+/-- once the fresh run has caught up with the kept map (every PID it knows is known again), the rest of the run needs no
+hypothesis: `Compatible` has to be checked only for the calls `cs₁` up to that point -/
+theorem rewind_behaves_fresh_caught_up (d₀ : Demux) (hfresh : Fresh d₀) (hs : d₀.Seekable)
+    (hsk : ∀ ds, d₀.skipper ≠ .script ds) (cs₀ cs₁ cs₂ : List ApiCall)
+    (hc : Compatible (d₀.after cs₀).programMap d₀ cs₁)
+    (hcov : ∀ x, (d₀.after cs₀).programMap.has x = true → (d₀.after cs₁).programMap.has x = true) :
+    (d₀.after cs₀).rewind.2.runCalls (cs₁ ++ cs₂) = d₀.runCalls (cs₁ ++ cs₂) :=
+  rewind_behaves_fresh d₀ hfresh hs hsk cs₀ _
+    ((compatible_append _ cs₁ cs₂ d₀).mpr ⟨hc, compatible_of_covered _ cs₂ _ hcov⟩)
+
+/-- the reader offsets agree as well after every call (and pool, data buffer, packet size) -/
+theorem rewind_states_fresh (d₀ : Demux) (hfresh : Fresh d₀) (hs : d₀.Seekable) (hsk : ∀ ds, d₀.skipper ≠ .script ds)
+    (cs₀ cs : List ApiCall) (hc : Compatible (d₀.after cs₀).programMap d₀ cs) :
+    ((d₀.after cs₀).rewind.2.after cs).r = (d₀.after cs).r ∧ ((d₀.after cs₀).rewind.2.after cs).pool = (d₀.after cs).pool ∧
+    ((d₀.after cs₀).rewind.2.after cs).dataBuffer = (d₀.after cs).dataBuffer ∧
+    ((d₀.after cs₀).rewind.2.after cs).packetSize = (d₀.after cs).packetSize := by
+  have := after_lock _ cs _ _ (rewind_lock d₀ hfresh hs hsk cs₀) hc
+  exact ⟨this.src.r, this.data.pool, this.data.dataBuffer, this.src.packetSize⟩
+
+/-- a scripted (stateful) skipper keeps its own state across the Rewind — the demuxer cannot reset it —: the demuxer then
+behaves as a fresh one that is handed the skipper in its current state -/
+theorem rewind_behaves_fresh_stateful_skipper (d₀ : Demux) (hfresh : Fresh d₀) (hs : d₀.Seekable) (cs₀ cs : List ApiCall)
+    (hc : Compatible (d₀.after cs₀).programMap { d₀ with skipIdx := (d₀.after cs₀).skipIdx } cs) :
+    (d₀.after cs₀).rewind.2.runCalls cs = Demux.runCalls { d₀ with skipIdx := (d₀.after cs₀).skipIdx } cs :=
+  runCalls_lock _ cs _ _ (rewind_lock_idx d₀ hfresh hs cs₀ _ (Or.inl rfl)) hc
+
+/-- `Rewind; Rewind = Rewind`, as states (any reader kind) and hence as behaviours -/
+theorem rewind_rewind (d : Demux) : d.rewind.2.rewind.2 = d.rewind.2 := by
+  unfold Demux.rewind
+  cases hk : d.r.kind <;> simp [hk]
+
+theorem rewind_rewind_behaviour (d : Demux) (cs : List ApiCall) : d.rewind.2.rewind.2.runCalls cs = d.rewind.2.runCalls cs := by
+  rw [rewind_rewind]
+
+/-! ### concrete streams: the hypothesis is needed, and it is satisfiable -/
+
+/-- PAT section: transport stream 1, program 1 ↦ PMT PID 0x100 -/
+def patSec : Bytes := [0x00, 0xB0, 0x0D, 0x00, 0x01, 0xC1, 0x00, 0x00, 0x00, 0x01, 0xE1, 0x00]
+/-- PMT section of program 1: PCR PID 0x101, one H.264 stream on PID 0x101 -/
+def pmtSec : Bytes :=
+  [0x02, 0xB0, 0x12, 0x00, 0x01, 0xC1, 0x00, 0x00, 0xE1, 0x01, 0xF0, 0x00, 0x1B, 0xE1, 0x01, 0xF0, 0x00]
+def patPkt : Bytes :=
+  [0x47, 0x40, 0x00, 0x10, 0x00] ++ patSec ++ be32 (computeCRC32 patSec) ++ List.replicate 167 0xFF
+def pmtPkt : Bytes :=
+  [0x47, 0x41, 0x00, 0x10, 0x00] ++ pmtSec ++ be32 (computeCRC32 pmtSec) ++ List.replicate 162 0xFF
+
+def demo (cs : List Bytes) : Demux := { r := { data := cs.flatten }, optPacketSize := 188 }
+
+/-- what a result is, as far as the examples need it -/
+inductive Tag where
+  | pat (pid : Nat) | pmt (pid : Nat) | otherData (pid : Nat) | packet (pid : Nat) | err (e : Err) | panic
+  deriving DecidableEq
+
+def tag : CallResult → Tag
+  | .packet (.ok p) => .packet p.header.pid
+  | .data (.ok d) => if d.pat.isSome then .pat d.pid else if d.pmt.isSome then .pmt d.pid else .otherData d.pid
+  | .packet (.err e) => .err e
+  | .data (.err e) => .err e
+  | .packet .panic => .panic
+  | .data .panic => .panic
+
+theorem demo_fresh (cs : List Bytes) : Fresh (demo cs) := ⟨rfl, rfl, rfl, rfl, rfl⟩
+theorem demo_seekable (cs : List Bytes) : (demo cs).Seekable := ⟨rfl, rfl⟩
+
+/-- **the program map kept by Rewind is observable.** Stream: the PMT packet, then the PAT packet. A fresh demuxer
+delivers PAT, PMT (the PMT PID is unknown when its packet arrives, so it waits in the pool until the final drain);
+after one `NextData` and a `Rewind` the PMT PID is known, the PMT is flushed at once: PMT, PAT. -/
+theorem rewind_differs_pmt_before_pat :
+    ((demo [pmtPkt, patPkt]).runCalls [.nextData, .nextData, .nextData]).map tag = [.pat 0, .pmt 256, .err .eof] ∧
+    (((demo [pmtPkt, patPkt]).after [.nextData]).rewind.2.runCalls [.nextData, .nextData, .nextData]).map tag
+      = [.pmt 256, .pat 0, .err .eof] := by
+  constructor <;> decide +kernel
+
+theorem rewind_not_fresh_in_general :
+    ¬ ∀ (d₀ : Demux), Fresh d₀ → d₀.Seekable → (∀ ds, d₀.skipper ≠ .script ds) → ∀ cs₀ cs : List ApiCall,
+      (d₀.after cs₀).rewind.2.runCalls cs = d₀.runCalls cs := by
+  intro h
+  have := h (demo [pmtPkt, patPkt]) (demo_fresh _) (demo_seekable _) (by intro ds; simp [demo]) [.nextData]
+    [.nextData, .nextData, .nextData]
+  have h2 := congrArg (List.map tag) this
+  rw [rewind_differs_pmt_before_pat.1, rewind_differs_pmt_before_pat.2] at h2
+  exact absurd h2 (by decide)
+
+/-- non-vacuity of R1: PAT first, then the PMT; Rewind after everything was demuxed (both tables delivered, the PMT PID
+learnt). The continuation is `Compatible`, and indeed the results agree -/
+example : Compatible ((demo [patPkt, pmtPkt]).after [.nextData, .nextData, .nextData]).programMap (demo [patPkt, pmtPkt])
+    [.nextData, .nextPacket, .nextData, .nextData] := by decide +kernel
+example : ((demo [patPkt, pmtPkt]).after [.nextData, .nextData, .nextData]).programMap = [(256, 1)] := by decide +kernel
+example : (((demo [patPkt, pmtPkt]).after [.nextData, .nextData, .nextData]).rewind.2.runCalls
+    [.nextData, .nextData, .nextData]).map tag = [.pat 0, .pmt 256, .err .eof] := by decide +kernel
+
+/-- the same with an auto-detected packet size (the packet buffer is created again after the Rewind) -/
+def demoAuto (cs : List Bytes) : Demux := { r := { data := cs.flatten } }
+example : Fresh (demoAuto [patPkt, pmtPkt]) ∧ (demoAuto [patPkt, pmtPkt]).Seekable := ⟨⟨rfl, rfl, rfl, rfl, rfl⟩, rfl, rfl⟩
+example : Compatible ((demoAuto [patPkt, pmtPkt]).after [.nextData, .nextData]).programMap (demoAuto [patPkt, pmtPkt])
+    [.nextData, .nextData, .nextData] := by decide +kernel
+example : (((demoAuto [patPkt, pmtPkt]).after [.nextData, .nextData]).rewind.2.runCalls [.nextData, .nextData, .nextData]).map tag
+    = [.pat 0, .pmt 256, .err .eof] := by decide +kernel
+
+/-- `rewind_behaves_fresh_caught_up`: after the first `NextData` (the PAT) the fresh run knows what the first pass learnt -/
+example : Compatible ((demo [patPkt, pmtPkt]).after [.nextData, .nextData]).programMap (demo [patPkt, pmtPkt]) [.nextData] ∧
+    ((demo [patPkt, pmtPkt]).after [.nextData, .nextData]).programMap = ((demo [patPkt, pmtPkt]).after [.nextData]).programMap := by
+  constructor <;> decide +kernel
+
+/-- `rewind_behaves_fresh_stateful_skipper`: a script skipping the first consulted packet only; the Rewind happens after
+two consultations, so the second pass skips nothing: PAT and PMT are delivered -/
+def demoScript (cs : List Bytes) : Demux := { r := { data := cs.flatten }, optPacketSize := 188, skipper := .script [true] }
+example : ((demoScript [patPkt, pmtPkt]).after [.nextData]).skipIdx = 2 := by decide +kernel
+example : Compatible ((demoScript [patPkt, pmtPkt]).after [.nextData]).programMap
+    { demoScript [patPkt, pmtPkt] with skipIdx := ((demoScript [patPkt, pmtPkt]).after [.nextData]).skipIdx }
+    [.nextData, .nextData, .nextData] := by decide +kernel
+example : (((demoScript [patPkt, pmtPkt]).after [.nextData]).rewind.2.runCalls [.nextData, .nextData, .nextData]).map tag
+    = [.pat 0, .pmt 256, .err .eof] := by decide +kernel
+/-- the first pass skipped the PAT -/
+example : ((demoScript [patPkt, pmtPkt]).runCalls [.nextData, .nextData]).map tag = [.err .eof, .err .eof] := by
+  decide +kernel
 
 end Astits.C20
